@@ -241,6 +241,18 @@ def holderRegions : List (Int × Option Space) → List (Nat × Nat)
   | (_, some sp) :: rest => if sp.typ = typeHolder then (sp.addr, sp.len) :: holderRegions rest else holderRegions rest
   | (_, none) :: rest => holderRegions rest
 
+/-- every region handed out by a sequential history, mappings and reserve alike, in order -/
+def allRegions : List (Int × Option Space) → List (Nat × Nat)
+  | [] => []
+  | (_, some sp) :: rest => (sp.addr, sp.len) :: allRegions rest
+  | (_, none) :: rest => allRegions rest
+
+/-- the mappings the kernel granted during a sequential history (its answers, as regions) -/
+def kernelAnswers : List (Int × Mmap) → List (Nat × Nat)
+  | [] => []
+  | (r, .fresh a) :: rest => (a, r.toNat) :: kernelAnswers rest
+  | (_, .fail) :: rest => kernelAnswers rest
+
 /-! ### observed concurrent histories and the executable `admits` -/
 
 /-- invocation / response of request `i`, in the order of the global stamps taken by the probe -/
